@@ -248,6 +248,24 @@ impl Prog {
             Src::Stream(j) => self.streams[*j].op.keeps_event_time() && self.keeps_event_time(&self.streams[*j].src),
         }
     }
+    /// A plain engine resolves a sequence over a stream it knows to that stream's *source* type plus
+    /// its first `.where`; that equals consuming the stream's emitted events only for pass/filter streams.
+    pub fn view_equivalent(&self, j: usize) -> bool {
+        matches!(self.streams[j].op, Op::Pass | Op::Filter(..))
+    }
+    /// sequence streams whose source is a transforming stream of another context
+    pub fn seq_over_remote_transform(&self) -> Vec<usize> {
+        self.streams
+            .iter()
+            .enumerate()
+            .filter(|(_, s)| matches!(s.op, Op::SeqPair))
+            .filter(|(_, s)| match s.src {
+                Src::Stream(j) => self.streams[j].ctx != s.ctx && !self.view_equivalent(j),
+                _ => false,
+            })
+            .map(|(i, _)| i)
+            .collect()
+    }
     /// longest chain of cross-context hops
     pub fn cross_depth(&self) -> usize {
         let mut d = vec![0usize; self.streams.len()];
@@ -287,6 +305,8 @@ pub struct Topo {
     pub local_derived: bool,
     /// every context either reads raw types only or derived streams only (needed by C27's replay rule)
     pub pure_ingress: bool,
+    /// allow a 2-step sequence over a transforming stream of another context (known finding of C26)
+    pub seq_over_remote_transform: bool,
 }
 
 #[derive(Clone, Debug)]
@@ -362,6 +382,11 @@ fn build_prog(n_ctx: usize, raws: Vec<RawStream>, t: Topo) -> Prog {
         }
         let Some(c) = placed else { continue };
         ctx = c;
+        if let (Op::SeqPair, Src::Stream(j)) = (&op, &src) {
+            if !t.seq_over_remote_transform && p.streams[*j].ctx != ctx && !p.view_equivalent(*j) {
+                op = Op::CountAgg { n: 2, partition: true };
+            }
+        }
         if let Src::Stream(j) = &src {
             if p.streams[*j].ctx != ctx {
                 have_cross = true;
